@@ -131,9 +131,10 @@ EditChoices ==
                    j2 \in {j2 \in DOMAIN model.rels : j2 # j}} : j \in DOMAIN model.rels}
    ELSE {})
   \cup (IF "reown" \in EditKinds
-        THEN UNION {{[k |-> "reown", j |-> j, i |-> i, x |-> "", lo |-> 0, hi |-> 0] :
+        THEN UNION {{[k |-> "reown", j |-> j, i |-> i, x |-> "", lo |-> 0, hi |-> late] :
                         i \in {i \in 1..NF : /\ model.feats[i].name # model.rels[j].owner
-                                              /\ model.feats[i].name \notin UNION {SubtreeOf(c) : c \in Kids(model.rels[j])}}} :
+                                              /\ model.feats[i].name \notin UNION {SubtreeOf(c) : c \in Kids(model.rels[j])}},
+                        late \in {0, 1}} :     \* 1: Relation.parent is assigned AFTER add_relation (both orders are legal uses)
                     j \in DOMAIN model.rels}
         ELSE {})
   \cup (IF "import" \in EditKinds
@@ -200,7 +201,7 @@ EditBy(d) ==
                                       o2 |-> Ref(d.lo).o, ri2 |-> Ref(d.lo).ri])
        [] d.k = "reown" ->
             /\ model' = ReOwnF(model, d.j, model.feats[d.i].name)
-            /\ hist'  = Append(hist, [a |-> "EditReown", o |-> Ref(d.j).o, ri |-> Ref(d.j).ri, o2 |-> model.feats[d.i].name])
+            /\ hist'  = Append(hist, [a |-> "EditReown", o |-> Ref(d.j).o, ri |-> Ref(d.j).ri, o2 |-> model.feats[d.i].name, late |-> d.hi])
        [] d.k = "import" ->
             LET new == <<[name |-> "i1", ast |-> ImportSeq[d.i][1]], [name |-> "i2", ast |-> ImportSeq[d.i][2]]>>
             IN  /\ model' = ImportF(model, new)
